@@ -28,7 +28,6 @@
 ; sig lsum : (Array Int Int) (Array Int Slice) Int Int -> Int
 ; sig lsum_unfold : (Array Int Int) (Array Int Slice) Int Int -> Bool
 ; sig lsum_shift : (Array Int Int) (Array Int Slice) Int Int -> Bool
-; sig lsum_local : (Array Int Int) (Array Int Slice) (Array Int Int) (Array Int Slice) Int Int -> Bool
 (declare-fun lsum ((Array Int Int) (Array Int Slice) Int Int) Int)
 (assert (forall ((p (Array Int Int)) (b (Array Int Slice)) (h Int)) (! (= (lsum p b h 0) 0) :pattern ((lsum p b h 0)))))
 (declare-fun lsum_unfold ((Array Int Int) (Array Int Slice) Int Int) Bool)
@@ -41,13 +40,31 @@
 (assert (forall ((p (Array Int Int)) (b (Array Int Slice)) (h Int) (j Int))
   (! (and (lsum_shift p b h j) (=> (>= j 0) (= (+ (lsum p b (select p h) j) (sl.len (select b h))) (lsum p b h (+ j 1)))))
      :pattern ((lsum_shift p b h j)))))
-; locality (lemma lsum_local): the sum of the first j chunks depends only on the links of the first j-1 and the
-; slices of the first j nodes
-(declare-fun lsum_local ((Array Int Int) (Array Int Slice) (Array Int Int) (Array Int Slice) Int Int) Bool)
+; locality (lemma lsum_local): the sum of the first j chunks depends only on which nodes these are and on the
+; lengths of their slices. lagree is that premise as an atom (defined, so that it can be proved once and then used)
+; sig lagree : (Array Int Int) (Array Int Slice) (Array Int Int) (Array Int Slice) Int Int -> Bool
+(declare-fun lagree ((Array Int Int) (Array Int Slice) (Array Int Int) (Array Int Slice) Int Int) Bool)
 (assert (forall ((p (Array Int Int)) (b (Array Int Slice)) (q (Array Int Int)) (c (Array Int Slice)) (h Int) (j Int))
-  (! (and (lsum_local p b q c h j)
-          (=> (and (>= j 0)
-                   (forall ((k Int)) (! (=> (and (<= 0 k) (< k j)) (= (qnth q h k) (qnth p h k))) :pattern ((qnth p h k)) :pattern ((qnth q h k))))
-                   (forall ((k Int)) (! (=> (and (<= 0 k) (< k j)) (= (sl.len (select c (qnth p h k))) (sl.len (select b (qnth p h k))))) :pattern ((qnth p h k)))))
-              (= (lsum q c h j) (lsum p b h j))))
-     :pattern ((lsum_local p b q c h j)))))
+  (! (= (lagree p b q c h j)
+        (forall ((k Int)) (! (=> (and (<= 0 k) (< k j))
+                                 (and (= (qnth q h k) (qnth p h k)) (= (sl.len (select c (qnth p h k))) (sl.len (select b (qnth p h k))))))
+                             :pattern ((qnth p h k)) :pattern ((qnth q h k)))))
+     :pattern ((lagree p b q c h j)))))
+(assert (forall ((p (Array Int Int)) (b (Array Int Slice)) (q (Array Int Int)) (c (Array Int Slice)) (h Int) (j Int))
+  (! (=> (and (>= j 0) (lagree p b q c h j)) (= (lsum q c h j) (lsum p b h j)))
+     :pattern ((lagree p b q c h j)))))
+; a store into B at a node that is not among the first j chunks does not change their sum (lemma lsum_store)
+(assert (forall ((p (Array Int Int)) (b (Array Int Slice)) (x Int) (v Slice) (h Int) (j Int))
+  (! (=> (forall ((k Int)) (! (=> (and (<= 0 k) (< k j)) (not (= (qnth p h k) x))) :pattern ((qnth p h k))))
+         (= (lsum p (store b x v) h j) (lsum p b h j)))
+     :pattern ((lsum p (store b x v) h j)))))
+; lnonneg(P, B, h, j): the first j chunks have non-negative lengths (an atom, proved once and then used); their sum
+; is then non-negative (lemma lsum_nonneg)
+; sig lnonneg : (Array Int Int) (Array Int Slice) Int Int -> Bool
+(declare-fun lnonneg ((Array Int Int) (Array Int Slice) Int Int) Bool)
+(assert (forall ((p (Array Int Int)) (b (Array Int Slice)) (h Int) (j Int))
+  (! (= (lnonneg p b h j) (forall ((k Int)) (! (=> (and (<= 0 k) (< k j)) (>= (sl.len (select b (qnth p h k))) 0)) :pattern ((qnth p h k)))))
+     :pattern ((lnonneg p b h j)))))
+(assert (forall ((p (Array Int Int)) (b (Array Int Slice)) (h Int) (j Int))
+  (! (=> (lnonneg p b h j) (>= (lsum p b h j) 0))
+     :pattern ((lnonneg p b h j)))))
